@@ -7,7 +7,7 @@ import shutil
 import tempfile
 import time
 
-from vf import build, busproc, client, gen, report
+from vf import build, busproc, client, gen, h1trace, report
 from vf.models import limits as lm
 
 PROP = "C13"
@@ -21,7 +21,10 @@ RULE = ("every history gets a fresh ASan daemon whose max_completed_connections,
         "classified by vf/models/limits.py as below the limit (must not fail with LimitsExceeded and must take effect), "
         "would exceed (must fail with LimitsExceeded / the connection must not become usable; ListQueuedOwners, "
         "ListNames, a probe signal for the refused rule and the liveness of every other client show that nothing "
-        "changed) or at-the-limit-without-raising-it (not judged). Full state comparisons (ListQueuedOwners of every "
+        "changed) or at-the-limit-without-raising-it (not judged). After every operation (and one more driver "
+        "round-trip) the bus's own counters from the state dump of hook H1 - registered / unregistered connections, per "
+        "connection names, match rules and pending replies, and the pending-reply list - must equal the model's. Full state "
+        "comparisons (ListQueuedOwners of every "
         "name, ListNames, GetConnectionUnixUser, one probe per (connection, rule)) run mid-way and at the end. "
         "Incomplete-connection histories: limit+k sockets send AUTH; exactly `limit` get a SASL answer (blocking wait "
         "for the lower bound, limit+k+3 driver round-trips of another client before reading the upper bound); closing / "
@@ -47,6 +50,10 @@ class EndHistory(Exception):
     """no registered connection is left (only after a violation was recorded): stop this history"""
 
 
+class StartFailure(Exception):
+    """the daemon's socket did not appear in time (overloaded machine): harness event, the history is tried again"""
+
+
 class History(object):
     def __init__(self, b, rundir, rng, part, hid):
         self.b, self.rundir, self.rng, self.part, self.hid = b, rundir, rng, part, hid
@@ -64,6 +71,10 @@ class History(object):
         self.saw_refusal = set()
         self.rule_taint = set()
         self.obsq = {}
+        self.trace = None
+        self.ndumps = 0
+        self.closing = 0         # unregistered connections we closed and the bus may not have noticed yet
+        self.differs_seen = set()
 
     # -- plumbing ------------------------------------------------------------------------------------
     def witness(self, extra=None):
@@ -104,9 +115,12 @@ class History(object):
         limits = dict(self.cfg)
         limits["auth_timeout"] = auth_timeout
         self.config_text = busproc.make_config("@SOCK@", limits=limits)
-        self.daemon = busproc.Daemon(self.b, self.rundir, self.config_text, name="h%d" % self.hid)
+        os.makedirs(self.rundir, exist_ok=True)
+        self.trace = os.path.join(self.rundir, "trace-h%d" % self.hid)
+        self.daemon = busproc.Daemon(self.b, self.rundir, self.config_text, name="h%d" % self.hid,
+                                     env={"DBUS_VERIF_TRACE": self.trace})
         if not self.daemon.started():
-            raise RuntimeError("daemon did not start: " + self.daemon.stderr_text()[-400:])
+            raise StartFailure("daemon did not start within busproc's deadline: " + self.daemon.stderr_text()[-400:])
         self.model = lm.Limits(self.cfg)
 
     def q(self):
@@ -279,6 +293,7 @@ class History(object):
             return c
         if verdict == lm.ALLOW:
             c.close()
+            self.closing += 1
             return None
         self.refused_aftermath(c, r)
         if r is not None and len(self.parked) + 1 < self.cfg["max_incomplete_connections"] and self.rng.random() < 0.6:
@@ -286,6 +301,7 @@ class History(object):
             self.step("  (kept open without a unique name)")
         else:
             c.close()
+            self.closing += 1
         self.model.incomplete = len(self.parked)
         return None
 
@@ -303,6 +319,7 @@ class History(object):
             self.parked.remove(c)
             if not done:
                 c.close()
+                self.closing += 1
         else:
             self.refused_aftermath(c, r)
         self.model.incomplete = len(self.parked)
@@ -618,6 +635,65 @@ class History(object):
         else:
             self.part.count("size:delivered:%+d" % delta)
 
+    # -- H1: the bus's own counters ----------------------------------------------------------------------------------
+    def differs(self, which, what):
+        self.part.count("counter-differs:" + which)
+        if which in self.differs_seen:
+            return
+        self.differs_seen.add(which)
+        self.violation("counter-differs:%s" % which, what)
+
+    def compare_counters(self, incomplete_bounds=None):
+        """after one further driver round-trip the last complete state dump reflects the bus after this operation"""
+        if not self.live or not self.daemon.alive():
+            return
+        self.phase = "barrier"
+        try:
+            self.q().barrier()
+        except client.Closed:
+            return                       # reported by the next bystander check
+        blk = h1trace.last_block(self.trace)
+        if blk is None:
+            self.part.count("dump-unavailable")
+            return
+        self.ndumps += 1
+        self.part.count("dump-comparisons")
+        m = self.model
+        if blk.completed != m.completed():
+            self.differs("completed", "bus counts %d registered connections, model %d" % (blk.completed, m.completed()))
+        if set(blk.conns) != set(m.uid):
+            self.differs("completed-set", "bus lists connections %r, model %r" % (sorted(blk.conns), sorted(m.uid)))
+        lo, hi = incomplete_bounds if incomplete_bounds is not None else (len(self.parked), len(self.parked) + self.closing)
+        if not (lo <= blk.incomplete <= hi):
+            self.differs("incomplete", "bus counts %d unregistered connections, the test holds %d open (and closed %d that may not have "
+                         "been noticed yet)" % (blk.incomplete, lo, hi - lo))
+        elif incomplete_bounds is None and blk.incomplete == lo:
+            self.closing = 0
+        for u, cnt in blk.conns.items():
+            if u not in m.uid:
+                continue
+            self.part.count("dump-connections-compared")
+            if cnt["names"] != m.names_count(u):
+                self.differs("names", "bus counts %d names for %s, model %d (unique name + owned + queued)" % (cnt["names"], self.lab(u), m.names_count(u)))
+            if u not in self.rule_taint and cnt["rules"] != m.rules_count(u):
+                # no rule of this workload names a unique name, so nothing can have been garbage-collected
+                self.differs("rules", "bus counts %d match rules for %s, model %d" % (cnt["rules"], self.lab(u), m.rules_count(u)))
+            if cnt["pending"] != m.replies_count(u):
+                self.differs("pending", "bus counts %d pending replies for %s, model %d" % (cnt["pending"], self.lab(u), m.replies_count(u)))
+            if cnt["names"] > self.cfg["max_names_per_connection"] or cnt["rules"] > self.cfg["max_match_rules_per_connection"] \
+                    or cnt["pending"] > self.cfg["max_replies_per_connection"]:
+                self.differs("above-limit", "bus counters of %s %r exceed the configured limits" % (self.lab(u), cnt))
+        if blk.completed > self.cfg["max_completed_connections"] or blk.incomplete > self.cfg["max_incomplete_connections"]:
+            self.differs("above-limit", "bus counters completed=%d incomplete=%d exceed the configured limits" % (blk.completed, blk.incomplete))
+        bus_slots = collections.Counter(blk.pending)
+        if set(bus_slots) != set(m.pending.slots) or any(n > 1 for n in bus_slots.values()):
+            self.differs("pending-slots", "bus pending-reply list %r, model %r" % (sorted(bus_slots.elements()), sorted(m.pending.slots)))
+        if self.ndumps % 8 == 0:
+            try:
+                open(self.trace, "w").close()
+            except OSError:
+                pass
+
     # -- full comparison at a quiescent point ------------------------------------------------------------------------
     def full_check(self):
         self.part.count("full-checks")
@@ -753,6 +829,7 @@ class History(object):
                     self.op_big(sender, target, rng.choice([-1, 0, 1]))
                 else:
                     self.op_big(c, c, rng.choice([-1, 0]))
+            self.compare_counters()
         if self.daemon.alive():
             self.full_check()
             self.bystanders_ok("final")
@@ -849,6 +926,9 @@ class History(object):
                            % (len(active), limit))
         else:
             self.part.count("incomplete:limit-held")
+        closed_by_me = 0
+        # H1: the bus's own n_incomplete (with a sub-second auth_timeout it changes by itself: only the limit is compared)
+        self.compare_counters((0, limit) if short_to else (len(active), len(active)))
         if short_to:
             # the bus drops connections that do not register within auth_timeout; every waiting socket then gets its turn
             while any(s not in served and s not in gone for s in socks):
@@ -872,6 +952,7 @@ class History(object):
                 if rng.random() < 0.5:
                     self.step("  close one of the served sockets")
                     s.close()
+                    closed_by_me += 1
                     gone.add(s)
                     how = "close"
                 else:
@@ -889,6 +970,7 @@ class History(object):
                         how = "complete"
                     else:
                         s.close()
+                        closed_by_me += 1
                         how = "refused-then-close"
                     gone.add(s)
                 freed += 1
@@ -904,6 +986,9 @@ class History(object):
                                    "%d unregistered ones are open, max_incomplete_connections=%d" % (freed, len(served), len(active), limit))
                     break
                 self.part.count("incomplete:freed-reused")
+                self.compare_counters((len(active), len(active) + closed_by_me))
+        if short_to:
+            self.compare_counters((0, limit))
         if any(s in gone and s not in served for s in socks):
             self.unsure("a socket was closed by the bus before its AUTH was answered")
         self.bystanders_ok("incomplete")
@@ -927,7 +1012,7 @@ class History(object):
         for c in self.live + self.parked:
             c.close()
         if self.daemon is not None:
-            self.daemon.stop()
+            self.daemon.stop(timeout=180)
             for cls, site, text in self.daemon.problems():
                 self.part.violation("%s:%s:%s" % (PROP, cls, site), "daemon reported %s" % cls, self.witness({"stderr": text[-3000:]}))
             self.part.count("daemon-stderr-scraped")
@@ -935,8 +1020,10 @@ class History(object):
 
 def _run_one(b, rundir, seed, shard, i, part):
     hid = shard * 100000 + i
-    for attempt in (0, 1):
-        d = os.path.join(rundir, "h%d-%d" % (i, attempt))
+    starts = 0
+    attempt = 0
+    while attempt < 2:
+        d = os.path.join(rundir, "h%d-%d-%d" % (i, attempt, starts))
         h = History(b, d, gen.rng_for(seed, PROP, shard, i), part, hid)
         try:
             h.run()
@@ -944,6 +1031,17 @@ def _run_one(b, rundir, seed, shard, i, part):
             part.count("histories")
             part.count("histories:" + h.kind)
             return h
+        except StartFailure as e:
+            try:
+                h.daemon.stop()        # no verdict is drawn from a daemon that never came up
+            except Exception:
+                pass
+            starts += 1
+            part.count("daemon-start-retried")
+            if starts >= 4:
+                part.inconclusive.append("history %d: %s" % (hid, e))
+                return None
+            continue
         except (client.Timeout, client.Closed) as e:
             alive = h.daemon.alive() if h.daemon else False
             try:
@@ -955,6 +1053,7 @@ def _run_one(b, rundir, seed, shard, i, part):
                                % (h.phase, type(e).__name__, alive), h.witness())
             else:
                 part.count("watchdog")
+            attempt += 1
         finally:
             shutil.rmtree(d, ignore_errors=True)
     return None
@@ -983,7 +1082,7 @@ REQUIRED = {"names:refused": 5, "names:refused:enqueue": 2, "names:refused:unown
             "connect:allowed": 20, "reuse:max_completed_connections": 1, "reuse:max_connections_per_user": 1,
             "size:delivered:-1": 2, "size:delivered:+0": 2, "size:disconnected": 2,
             "incomplete:limit-held": 3, "incomplete:freed-reused": 3, "incomplete:expired-reused": 1,
-            "full-checks": 10, "daemon-stderr-scraped": 1}
+            "full-checks": 10, "daemon-stderr-scraped": 1, "dump-comparisons": 5000, "dump-connections-compared": 10000}
 
 
 def run(tier, seed, replay=None, scale=1.0):
@@ -1013,7 +1112,7 @@ def run(tier, seed, replay=None, scale=1.0):
     r.extra["per_limit_kind"] = {k: int(v) for k, v in sorted(r.counters.items())
                                  if k.split(":")[0] in ("names", "rules", "replies", "connect", "size", "incomplete", "reuse")}
     for k, m in REQUIRED.items():
-        r.require(k, m if scale >= 1 else (1 if scale >= 0.04 else 0))
+        r.require(k, m if scale >= 1 else (max(1, int(m * scale)) if scale >= 0.04 else 0))
     r.assumptions = [
         "'names per connection' counts the unique name plus every well-known name the connection owns or is queued for "
         "(dbus-daemon(1): 'names a single connection can own'; the specification keeps a queued connection's claim; the "
@@ -1030,6 +1129,10 @@ def run(tier, seed, replay=None, scale=1.0):
         "for an accepted rule after RemoveMatch - C07, reply routing - C09) make the run inconclusive instead of being "
         "reported under C13",
         "'at every moment' is narrowed to quiescent points: after the requester's and every affected party's driver round-trip",
+        "hook H1 (FREEDESKTOP_DBUS_VERIF build) dumps the counters after every dispatch and aborts with VERIF-INVARIANT when a counter "
+        "disagrees with the structure it counts or exceeds its limit; the number of unregistered connections is compared as an "
+        "interval while connections the test closed may not have been noticed yet; no rule of the workload names a unique name, so "
+        "rule counts are compared exactly",
         "upper bound of the incomplete-connection test: another client completes limit+k+3 driver round-trips (each needs a main-loop "
         "iteration, the bus accepts one connection per iteration) before the sockets are read; pending-reply counters cannot be "
         "queried and are observed through refusals only",
